@@ -2,10 +2,20 @@
 
 package replayfilter
 
-import "time"
+// Accessors to the filter's private state by field NAME at run time (package
+// peek); ok=false means the representation changed and the harness uses its
+// black-box oracles (the answers of TestAndSet) only.
 
-// VerifMaxFilterSize exposes the capacity constant to the harness.
-const VerifMaxFilterSize = maxFilterSize
+import (
+	"container/list"
+	"reflect"
+	"time"
+
+	"gitlab.com/yawning/obfs4.git/internal/zzverif/peek"
+)
+
+// VerifMaxFilterSize is the documented capacity (C11: "capacity of 102400").
+const VerifMaxFilterSize = 102400
 
 // VerifEntry is one remembered value in FIFO (insertion) order.
 type VerifEntry struct {
@@ -15,21 +25,64 @@ type VerifEntry struct {
 
 // VerifDump returns the FIFO contents and whether the map and the FIFO are in
 // bijection (same size, every FIFO element is the map entry of its digest and
-// points back at its own list element).
-func VerifDump(f *ReplayFilter) (entries []VerifEntry, bijective bool) {
-	bijective = len(f.filter) == f.fifo.Len()
-	for e := f.fifo.Front(); e != nil; e = e.Next() {
-		ent, _ := e.Value.(*entry)
-		if ent == nil {
-			return entries, false
+// points back at its own list element).  ok=false: unavailable.
+func VerifDump(f *ReplayFilter) (entries []VerifEntry, bijective bool, ok bool) {
+	m, okM := peek.Field(f, "filter")
+	lv, okL := peek.Iface(f, "fifo")
+	l, isL := lv.(*list.List)
+	if !okM || !okL || !isL || l == nil || m.Kind() != reflect.Map {
+		return nil, false, false
+	}
+	bijective = m.Len() == l.Len()
+	for e := l.Front(); e != nil; e = e.Next() {
+		ev := reflect.ValueOf(e.Value)
+		d, ok1 := peek.FieldOf(ev, "digest")
+		fs, ok2 := peek.FieldOf(ev, "firstSeen")
+		if !ok1 || !ok2 || d.Kind() != reflect.Uint64 {
+			return nil, false, false
 		}
-		entries = append(entries, VerifEntry{ent.digest, ent.firstSeen})
-		if f.filter[ent.digest] != ent || ent.element != e {
+		t, isT := fs.Interface().(time.Time)
+		if !isT {
+			return nil, false, false
+		}
+		entries = append(entries, VerifEntry{d.Uint(), t})
+		me := m.MapIndex(d)
+		if !me.IsValid() || me.Kind() != reflect.Ptr || me.Pointer() != ev.Pointer() {
 			bijective = false
+		} else if el, ok3 := peek.FieldOf(ev, "element"); ok3 {
+			if p, isP := el.Interface().(*list.Element); isP && p != e {
+				bijective = false
+			}
 		}
 	}
-	return entries, bijective
+	return entries, bijective, true
 }
 
 // VerifLen returns (len(map), len(fifo)) without walking the list.
-func VerifLen(f *ReplayFilter) (int, int) { return len(f.filter), f.fifo.Len() }
+func VerifLen(f *ReplayFilter) (int, int, bool) {
+	m, okM := peek.Field(f, "filter")
+	lv, okL := peek.Iface(f, "fifo")
+	l, isL := lv.(*list.List)
+	if !okM || !okL || !isL || l == nil || m.Kind() != reflect.Map {
+		return 0, 0, false
+	}
+	return m.Len(), l.Len(), true
+}
+
+// VerifAvailable reports (from the types alone, so also for an empty filter)
+// whether the representation is the one the accessors know: a map from uint64
+// to *struct{digest uint64; firstSeen time.Time; ...} and a *list.List.
+func VerifAvailable(f *ReplayFilter) bool {
+	m, okM := peek.Field(f, "filter")
+	lv, okL := peek.Iface(f, "fifo")
+	if _, isL := lv.(*list.List); !okM || !okL || !isL || m.Kind() != reflect.Map {
+		return false
+	}
+	et := m.Type().Elem()
+	if et.Kind() != reflect.Ptr || et.Elem().Kind() != reflect.Struct || m.Type().Key().Kind() != reflect.Uint64 {
+		return false
+	}
+	d, ok1 := et.Elem().FieldByName("digest")
+	fs, ok2 := et.Elem().FieldByName("firstSeen")
+	return ok1 && ok2 && d.Type.Kind() == reflect.Uint64 && fs.Type == reflect.TypeOf(time.Time{})
+}
